@@ -153,6 +153,8 @@ def run_job(job):
 
     def check(c):
         name, args, mode, form = c
+        if any(shapes.is_marker(a) and a[0] == 'builtin' and a[1] in shapes.MUTATORS for a in args):
+            return hyp.Result(discard=True)     # a mutator passed as the callback mutates by design
         case = encode_case(name, args, mode, form)
         if mode == 'direct':
             fails, info = run_direct(name, args, case)
